@@ -1,5 +1,7 @@
 import Litep2pVerif.Common.Parse
 import Litep2pVerif.Model.Id.PeerId
+import Litep2pVerif.Model.Id.Keys
+import Litep2pVerif.Model.Wire.Schemas
 import Litep2pVerif.Generated.Consts
 /-! Line-protocol driver for the peer-id models (C18). Every answer is
 `<litep2p model> | <reference model>`, like the harness area `c18` (litep2p adapter | libp2p-identity).
@@ -89,6 +91,73 @@ def step (st : State) (line : String) : State × String :=
         else
           showDerive ((PeerId.fromPublicKeyProtobuf maxInline (fun _ => []) (ed25519Protobuf key)).map PeerId.toBytes)
           ++ " | " ++ showDerive ((Ref.fromKeyEncoding (fun _ => []) (ed25519Protobuf key)).map Ref.toBytes)
+      | none => "bad-op"
+    -- ---- ed25519 key material: `<litep2p> | <reference> | <facts>`; the facts (curve arithmetic) are inputs
+    | "kpbytes" :: data :: rest =>
+      match hexArg? data, arg? "derive" rest, arg? "valid" rest with
+      | some buf, some d, some v =>
+        let derived : List UInt8 := (hexVal? d).getD []
+        let c : Keys.Curve := ⟨fun _ => derived, fun _ => v == "1", fun _ _ _ => false⟩
+        let r := Keys.keypairFromBytes c buf
+        let x := match r.1 with
+          | some k => "ok pub=" ++ hexOf k.pub ++ " sec=" ++ hexOf k.secret ++
+              " zeroed=" ++ (if r.2.all (· == 0) then "1" else "0") ++
+              " rt=" ++ (if k.toBytes == buf then "1" else "0") ++ " c=1"
+          | none => "err kept=" ++ (if r.2 == buf then "1" else "0")
+        x ++ " | " ++ x ++ " | derive=" ++ d ++ " valid=" ++ v
+      | _, _, _ => "bad-op"
+    | "skbytes" :: data :: rest =>
+      match hexArg? data, arg? "derive" rest with
+      | some buf, some d =>
+        let r := Keys.secretFromBytes buf
+        let x := match r.1 with
+          | some sec => "ok sec=" ++ hexOf sec ++ " pub=" ++ d ++ " zeroed=" ++ (if r.2.all (· == 0) then "1" else "0")
+          | none => "err kept=" ++ (if r.2 == buf then "1" else "0")
+        x ++ " | " ++ x ++ " | derive=" ++ d
+      | _, _ => "bad-op"
+    | "pkbytes" :: data :: rest =>
+      match hexArg? data, arg? "valid" rest with
+      | some k, some v =>
+        let c : Keys.Curve := ⟨id, fun _ => v == "1", fun _ _ _ => false⟩
+        let x := match Keys.publicFromBytes c k with
+          | some k' => "ok " ++ hexOf k' ++ " c=1"
+          | none => "err badkey"
+        x ++ " | " ++ x ++ " | valid=" ++ v
+      | _, _ => "bad-op"
+    | "pkproto" :: data :: rest =>
+      match hexArg? data, arg? "valid" rest, arg? "ref" rest with
+      | some blob, some v, some r =>
+        let x := match Wire.remotePublicKey (fun _ => v == "1") (blob.map (·.toNat)) with
+          | .ok key => "ok " ++ bytesHex key
+          | .decodeErr => "err decode"
+          | .unknownKeyType => "err type"
+          | .invalidData => "err badkey"
+        x ++ " | " ++ r.replace ":" " "
+      | _, _, _ => "bad-op"
+    | "edverify" :: key :: msg :: sig :: rest =>
+      match hexArg? key, hexArg? msg, hexArg? sig, arg? "valid" rest, arg? "sigok" rest with
+      | some k, some m, some sg, some v, some ok =>
+        let c : Keys.Curve := ⟨id, fun _ => v == "1", fun _ _ _ => ok == "1"⟩
+        let x := match Keys.publicFromBytes c k with
+          | none => "err badkey"
+          | some k' => toString (Keys.verify c k' m sg)
+        x ++ " | " ++ x
+      | _, _, _, _, _ => "bad-op"
+    | "edsign" :: sk :: msg :: rest =>
+      match hexArg? sk, hexArg? msg with
+      | some s, some _ =>
+        let x := match (Keys.secretFromBytes s).1 with
+          | some _ => "ok " ++ (arg? "sig" rest).getD "?" ++ " v=1"
+          | none => "err badkey"
+        x ++ " | " ++ x
+      | _, _ => "bad-op"
+    | "conv" :: rest =>
+      match hexArg? (rest.headD "") with
+      | some bs =>
+        showL (PeerId.fromBytes maxInline bs) ++ " | " ++
+          (match Ref.fromBytes bs with
+           | .ok p => "ok " ++ hexOf (Ref.toBytes p)
+           | .error _ => "err multihash")
       | none => "bad-op"
     | "fromstr" :: rest =>
       match hexArg? (rest.headD "") with
